@@ -3,6 +3,7 @@ pub mod cells;
 pub mod frame;
 pub mod golden;
 pub mod proj;
+pub mod purity;
 pub mod graph;
 pub mod hilbert;
 pub mod lookup;
@@ -29,6 +30,7 @@ pub fn run(prop: &str, tier: &str, verif_dir: &str) -> Option<Report> {
         "C04" => cells::run_c04(tier),
         "C11" => cells::run_c11(tier),
         "C12" => cells::run_c12(tier),
+        "C13" => purity::run(tier, verif_dir),
         "C14" => total::run(tier, verif_dir),
         "C15" => proj::run_c15(tier),
         "C16" => proj::run_c16(tier),
@@ -51,6 +53,7 @@ pub fn replay(prop: &str, case: &Value, verif_dir: &str) -> Option<Vec<Viol>> {
         "C01" | "C02" => lookup::replay(prop, case),
         "C03" => partition::replay(case),
         "C04" | "C11" | "C12" => cells::replay(prop, case),
+        "C13" => purity::replay(case, verif_dir),
         "C14" => total::replay(case),
         "C15" => proj::replay_c15(case),
         "C16" => proj::replay_c16(case),
